@@ -58,7 +58,35 @@ func programs() []*progen.Program {
 	// wildcard bindings and struct-typed pipeline outputs
 	add(wildcardProgram())
 	add(retainOnlyProgram())
+	add(multiAliasProgram())
 	return out
+}
+
+// multiAliasProgram: one stage called under several ids, with single binding
+// expressions (array, typed-map and struct literals, a return value) that
+// refer to the same output through more than one of those ids.
+func multiAliasProgram() *progen.Program {
+	p := progen.Dataflow(progen.DataflowParams{Kind: "int", Src: "gen", Size: 2, Cons: "add"})
+	if p == nil {
+		return nil
+	}
+	I := progen.IntT
+	p.Structs = append(p.Structs, &progen.StructDecl{Name: "PAIR", Fields: []progen.Param{{T: I, Name: "l"}, {T: I, Name: "r"}}})
+	p.Stages = append(p.Stages,
+		&progen.Stage{Name: "TAKE", Fn: "LEN", Ins: []progen.Param{{T: progen.ArrayOf(I), Name: "c"}, {T: progen.TMapOf(I), Name: "m"}, {T: progen.StructT("PAIR"), Name: "pr"}},
+			Outs: []progen.Param{{T: I, Name: "n"}}})
+	top := p.Pipeline("TOP")
+	top.Calls = append(top.Calls,
+		&progen.Call{Callee: "ADD", Alias: "LEFT", Binds: []progen.Bind{{"a", progen.Self("n")}, {"b", progen.Lit(progen.Int(1))}}},
+		&progen.Call{Callee: "ADD", Alias: "RIGHT", Binds: []progen.Bind{{"a", progen.Self("n")}, {"b", progen.Lit(progen.Int(2))}}},
+		&progen.Call{Callee: "TAKE", Binds: []progen.Bind{
+			{"c", progen.ArrE(progen.Ref("LEFT", "sum"), progen.Ref("RIGHT", "sum"), progen.Ref("LEFT", "sum"))},
+			{"m", progen.MapE([]string{"l", "r"}, []*progen.Exp{progen.Ref("LEFT", "sum"), progen.Ref("RIGHT", "sum")})},
+			{"pr", progen.StructE([]string{"l", "r"}, []*progen.Exp{progen.Ref("RIGHT", "sum"), progen.Ref("LEFT", "sum")})}}})
+	top.Outs = append(top.Outs, progen.Param{T: progen.ArrayOf(I), Name: "both"}, progen.Param{T: I, Name: "taken"})
+	top.Ret = append(top.Ret, progen.Bind{"both", progen.ArrE(progen.Ref("LEFT", "sum"), progen.Ref("RIGHT", "sum"))}, progen.Bind{"taken", progen.Ref("TAKE", "n")})
+	p.Desc = "one-stage-under-several-ids"
+	return p
 }
 
 // retainOnlyProgram: a call whose only use is the pipeline's retain list,
